@@ -165,3 +165,116 @@ Example ex2_runs :
   run_program 200 (single ex2_fd) [10]
     = OResult (CInt 63) [2; 4; 8; 16; 32; 64; 128; 256; 512; 1024; 511; 255; 127; 63].
 Proof. vm_compute. split; reflexivity. Qed.
+
+(* ==== stage 3: the machine with frames, calls of top-level functions (fragment F3) ===============
+   Model: Src/Compile3.v (`cexpr`: calls MARK / args right to left / GLOBAL_VEC 0; ID_FUNC_ADDR f /
+   CALL / LABEL, self tail calls `args; f; SLIDE (L+v) (v+1); CALL`; `compile_program`: the whole
+   module image — global prelude, entry stub, stdlib bodies, the program's bodies — and `exc_table`)
+   and VM/ValueVM3.v (MARK pushes the five header words, CALL / RET / RETHROW move the frame,
+   registers fp / exception / the suspended activations, exception dispatch through the exception
+   table, HALT / UNHANDLED_EXCEPTION).  Tied by checks/parts/compiletie.py level 3: the model image
+   = the real module's whole code array and exception table, ValueVM3 = the real VM (result,
+   prints, exception, peak sp, instruction count), ValueVM3 = the evaluator, on generated F3
+   programs (several functions, recursion to depth 300, self tail calls, faults in callees).
+
+   F3 (`Compile3.prog_in_F3 p = true`): F2 + calls f(a1, …, an) of the program's top-level
+   functions with n = the number of parameters of f (recursion, mutual calls, self tail calls
+   included); functions with pairwise different names, parameters and let/var names different from
+   every function name, no catch clauses, the entry function among them.  Out of F3: closures /
+   nested functions, function values other than a called name, catch clauses, non-int data.
+
+   PROVED so far (closed, below): `compile_expr_correct_frames` — expression-level correctness on
+   the machine with frames for levels 1 and 2, print(e) through the real call sequence and the
+   stdlib body, faults DISPATCHED through the exception table, a fault inside a call argument
+   unwinding the pending MARK through LABEL; RETHROW.
+   NOT YET PROVED (the tie checks it on every generated program): the full statement
+
+     Theorem compile_program_correct_F3 : forall fuel p args,
+       Compile3.prog_in_F3 p = true ->
+       match run_program fuel p args with
+       | OResult v printed =>
+           exists k z, Compile3.run_vm p k args = VRet z printed /\ val_rel v z
+       | OUnhandled ex printed =>
+           exists k, Compile3.run_vm p k args = VExc ex printed
+       | OFuel | OStuck => True
+       end.
+
+     (ValueVM3's stack is unbounded; the real VM additionally stops with "stack too large" when
+      `flat_len` of a state — evaluator call depth d costs at most d * (5 + parameters + locals +
+      temporaries of the deepest-nesting function) + 30 + number of functions slots — reaches the
+      stack size; the tie compares the peak of `flat_len` with the real peak sp.)
+
+   missing: (a) the case of a call of a program function (argument list by induction with
+   expr_spec, callee body at the callee's registers, RET / RETHROW back to the caller);
+   (b) expressions in tail position and the frame-reusing self tail call; (c) `prog_ok` for
+   `rel_image p` and the entry stub.  Src/CompileCorrect3.v lists the lemmas already in place. *)
+From NV Require Import VM.ValueVM3 Src.Compile3 Src.CompileCorrect3Base Src.CompileCorrect3.
+
+Theorem compile_expr_correct_frames_partial : forall (X : xinfo) (G : ginfo) (lv : nat),
+  Nat.leb 3 lv = false ->
+  forall fuel e env st r st' sc,
+  eval (g_genv G) fuel env st e = (r, st') ->
+  Compile3.in_F (g_sigs G) lv sc e = true ->
+  forall prog pc L ce s m,
+    pcode_at X G prog pc (Compile3.compile_expr (map fd_name (g_funcs G)) L ce e) ->
+    ValueVM3.v_ip s = pc ->
+    CompileCorrect3Base.MS m st (ValueVM3.v_heap s) -> ValueVM3.v_out s = out st ->
+    CompileCorrect3Base.env_match G m env ce sc L (ValueVM3.v_stk s) ->
+    match r with
+    | ROk c =>
+      exists s' m' a, ValueVM3.star X prog s s' /\
+        ValueVM3.v_ip s' = (pc + length (Compile3.compile_expr (map fd_name (g_funcs G)) L ce e))%nat /\
+        ValueVM3.v_stk s' = a :: ValueVM3.v_stk s /\ nth_error m' c = Some (MA a) /\
+        CompileCorrect3Base.MS m' st' (ValueVM3.v_heap s') /\ CompileCorrect3Base.ext m m' /\
+        ValueVM3.v_out s' = out st' /\ v_fr s' = v_fr s
+    | RExc ex =>
+      ex = ExDivision /\
+      exists s' fip, ValueVM3.star X prog s s' /\
+        (pc <= fip < pc + length (Compile3.compile_expr (map fd_name (g_funcs G)) L ce e))%nat /\
+        ValueVM3.v_ip s' = hsearch (x_tab X) fip 0 /\ v_fr s' = set_exc (v_fr s) ExDivision /\
+        (exists t top, ValueVM3.v_stk s' = t :: top ++ ValueVM3.v_stk s) /\
+        ValueVM3.v_out s' = out st'
+    | _ => True
+    end.
+Proof. exact CompileCorrect3.compile_expr_correct_frames. Qed.
+Print Assumptions compile_expr_correct_frames_partial.
+
+(* a concrete recursive program of F3:
+     func fact(n : int) -> int { (n <= 0) ? 1 : (n * fact(n - 1)) }           (recursion, not tail)
+     func sum(n : int, acc : int) -> int { (n <= 0) ? acc : sum(n - 1, acc + n) }   (self tail call)
+     func dv(a : int, b : int) -> int { print(a); a / b }                      (may fault)
+     func main(x : int, var y : int) -> int
+     { let t = fact(x) + sum(y, 0); print(t); dv(print(1), print(2) - x) + fact(2) } *)
+Definition fact_fd : fdef := FDef 1%N [(2%N, false, TInt)] TInt
+  [IExpr (ECond (EBin Le (EVar 2%N) (EInt 0)) (EInt 1)
+                (EBin Mul (EVar 2%N) (ECall (EVar 1%N) [EBin Sub (EVar 2%N) (EInt 1)])))] [] None.
+Definition sum_fd : fdef := FDef 3%N [(4%N, false, TInt); (5%N, false, TInt)] TInt
+  [IExpr (ECond (EBin Le (EVar 4%N) (EInt 0)) (EVar 5%N)
+                (ECall (EVar 3%N) [EBin Sub (EVar 4%N) (EInt 1); EBin Add (EVar 5%N) (EVar 4%N)]))] [] None.
+Definition dv_fd : fdef := FDef 6%N [(7%N, false, TInt); (8%N, false, TInt)] TInt
+  [IExpr (EPrint (EVar 7%N)); IExpr (EBin Div (EVar 7%N) (EVar 8%N))] [] None.
+Definition main3_fd : fdef := FDef 0%N [(9%N, false, TInt); (10%N, true, TInt)] TInt
+  [ILet 11%N (EBin Add (ECall (EVar 1%N) [EVar 9%N]) (ECall (EVar 3%N) [EVar 10%N; EInt 0]));
+   IExpr (EPrint (EVar 11%N));
+   IExpr (EBin Add (ECall (EVar 6%N) [EPrint (EInt 1); EBin Sub (EPrint (EInt 2)) (EVar 9%N)])
+                   (ECall (EVar 1%N) [EInt 2]))] [] None.
+Definition ex3 : program :=
+  {| p_recs := []; p_funcs := [fact_fd; sum_fd; dv_fd; main3_fd]; p_main := 0%N |}.
+
+Example ex3_in_F3 : Compile3.prog_in_F3 ex3 = true.
+Proof. vm_compute. reflexivity. Qed.
+
+(* the module image has 457 instructions (the real compiler's module for this source has 457 too);
+   on (3, 4): t = 6 + 10 is printed, the arguments of dv are evaluated right to left (2 then 1 are
+   printed), dv prints 1 and returns 1 / -1, the result is -1 + 2; the evaluator says the same *)
+Example ex3_runs :
+  Compile3.run_vm ex3 2000 [3; 4] = ValueVM3.VRet 1 [16; 2; 1; 1] /\
+  run_program 200 ex3 [3; 4] = OResult (CInt 1) [16; 2; 1; 1].
+Proof. vm_compute. split; reflexivity. Qed.
+
+(* on (2, 4) the callee dv divides by 0: the exception leaves dv and main through their
+   LABEL; RETHROW and reaches UNHANDLED_EXCEPTION of the entry stub *)
+Example ex3_raises :
+  Compile3.run_vm ex3 2000 [2; 4] = ValueVM3.VExc ExDivision [12; 2; 1; 1] /\
+  run_program 200 ex3 [2; 4] = OUnhandled ExDivision [12; 2; 1; 1].
+Proof. vm_compute. split; reflexivity. Qed.
